@@ -10,15 +10,80 @@ TRUSTED_COMMON = [
 ]
 
 HOOK_COMMITS = []
+NOT_READY = {"C11", "C15"}   # Props present but suites not yet registered in cmd/vh
+HOOK_PROPS = set()   # properties with hook-based suites in harness/cmd/vhk
 NOTES = "All checks: bin/check <id>. Level proof = Coq theorems about hand-written Gallina models + regenerated tables/facts, tied to /repo by a correspondence run on every check; an implementation-side oracle searches for failing inputs. See DESIGN.md."
 
 PROPS = {}
 def prop(pid, **kw):
     PROPS[pid] = kw
 
-prop("C20",
-     level_text="RCT inverse proved for all integers and for the int32 code within +-2^28 (complete). DWT 5/3, MQ, T1: see theorem list in evidence; parts marked _partial are named there.",
-     level_note="Theorems are about Gallina models of rct.go/dwt53.go/mqc; models are compared integer-exactly with the Go functions on generated inputs on every run.",
+
+COMMON_NOTE = ("Theorems are about hand-written Gallina models (coq/<Area>/*Model*.v); on every run the models are extracted and "
+               "compared with the Go implementation on generated inputs (correspondence), regenerated tables/facts are re-proved, and an "
+               "implementation-side oracle evaluates the property on the Go code alone (failing-input search; reaches un-modelled glue).")
+
+prop("C01", design_ref="DESIGN.md 5 (C01)",
+     level_text="RLE: complete model of rle.go (encoder state machine, segment/plane mapping, header, decoder loop) with an independent PackBits/Annex G reader; theorems for all geometries and all byte strings (see evidence.coverage.theorems for exact status).",
+     level_note=COMMON_NOTE + " bytes.Buffer / binary.Write assumed to append.",
+     trusted=["bytes.Buffer/binary.Write modelled as list append"])
+prop("C02", design_ref="DESIGN.md 5 (C02)",
+     level_text="JPEG Lossless/SV1: byte-exact model of encoder and decoder (predictors, category coder, optimal Huffman builder, stuffing, markers); category coder exhaustive over all 65536 differences, modulo-2^16 reconstruction, Huffman prefix decoding, stuffing round trip; whole-image round trip as far as listed in evidence (parts may be _partial).",
+     level_note=COMMON_NOTE)
+prop("C03", design_ref="DESIGN.md 5 (C03)",
+     level_text="JPEG-LS lossless: byte-exact model (parameters, Golomb, run mode, contexts, scan) and per-symbol exactness theorems for all precisions 2..16; whole-scan lockstep status in evidence.",
+     level_note=COMMON_NOTE + " GolombReader word cache modelled as bit list.")
+prop("C04", design_ref="DESIGN.md 5 (C04)",
+     level_text="JPEG 2000 reversible single tile: arithmetic/geometry stages proved exactly (sample codec, RCT, 5/3 DWT all sizes/levels/parities, band and code-block partitions); entropy/packet stages are tied by component theorems (MQ, T1, tag-tree where present) and decided end to end by the implementation-side round-trip oracle over the property's configuration space. Partial: T1/T2 transport is not a single end-to-end theorem.",
+     level_note=COMMON_NOTE + " Section hypotheses t1_rt/t2_rt where the pipeline theorem uses them.")
+prop("C05", design_ref="DESIGN.md 5 (C05)",
+     level_text="JPEG 2000 lossless syntaxes: theorem that for any allocation the final layer completes every code-block and that every accepted parameter object in the property's domain maps to that premise; rate-control internals are an arbitrary allocation in the theorem; end-to-end decided by the codec round-trip oracle over the parameter space.",
+     level_note=COMMON_NOTE + " Hook-based correspondence (build tag verif) for finalizeBlock and the parameter mapping.")
+prop("C06", design_ref="DESIGN.md 5 (C06)",
+     level_text="HTJ2K lossless: MEL/UVLC/VLC table and Kmax theorems over regenerated tables; the HT cleanup pass as a whole is not modelled, so the property level is partial: the round trip and the 14 third-party fixtures are decided by the implementation-side oracle.",
+     level_note=COMMON_NOTE)
+prop("C07", design_ref="DESIGN.md 5 (C07)",
+     level_text="JPEG-LS near-lossless: per-sample theorem |x'-x| <= NEAR, range, encoder/decoder reconstruction agreement for every NEAR and precision; byte-exact model; whole-scan status in evidence.",
+     level_note=COMMON_NOTE)
+prop("C08", design_ref="DESIGN.md 5 (C08)",
+     level_text="No decoder panics: panic-explicit models of the header parsers with no-panic theorems for all byte strings (list in evidence), MQ decoder bounds; entropy-decoder inner loops and tile decoding are searched (mutation corpus in child processes), not proved. Partial.",
+     level_note=COMMON_NOTE + " Child processes with watchdog; a fatal abort counts as failure.")
+prop("C09", design_ref="DESIGN.md 5 (C09)",
+     level_text="Bounded decode: fuel/allocation theorems for the modelled parsers (every loop consumes input; allocation requests bounded by declared size); wall time and heap are measured per decode in child processes. Partial: the theorem is about iteration counts and requested sizes, not about the Go runtime.",
+     level_note=COMMON_NOTE + " Watchdog 10 s, heap budget 512 MiB + 64*S.")
+prop("C10", design_ref="DESIGN.md 5 (C10)",
+     level_text="Codec contract: theorems over all histories for the frame-loop shapes and the field-dataflow summaries of Encoder/Decoder; regenerated write/read-site facts must be covered by the summaries (re-proved every run); per-frame codec functions are abstract; histories on real objects are searched.",
+     level_note=COMMON_NOTE + " Fact extractor (go/parser+go/types) is trusted to see every write.")
+prop("C11", design_ref="DESIGN.md 5 (C11)",
+     level_text="JPEG DCT loss bound: quantiser error, table ranges for all qualities (regenerated), DQT written = used, zig-zag, linear bound over Q and its 8x8 IDCT instantiation over R; the coded integer DCT/IDCT pair's deviation from an exact inverse pair is an explicit hypothesis (_partial); the bound itself is evaluated on every case by the oracle with DQT parsed from the stream.",
+     level_note=COMMON_NOTE + " Theorems over R use the standard library Reals axioms (listed in print_assumptions).")
+prop("C12", design_ref="DESIGN.md 5 (C12)",
+     level_text="JPEG 2000 irreversible bound: step-size field round trip, dead-zone error, linear bound, clamp; the float 9/7 and ICT kernels enter as Section hypotheses (partial); the declared-step bound is evaluated per sample by the oracle through an independent float64 inverse 9/7.",
+     level_note=COMMON_NOTE)
+prop("C13", design_ref="DESIGN.md 5 (C13)",
+     level_text="JPEG Lossless vs T.81: independent Annex H codec written from the standard; code model = T.81 model theorems per predictor; cross-decoding Go <-> T.81 model on generated conformant streams (table ids 0-3, table kinds, DHT placement).",
+     level_note=COMMON_NOTE)
+prop("C14", design_ref="DESIGN.md 5 (C14)",
+     level_text="JPEG-LS vs T.87: coded parameters = standard's formulas over the whole (P,NEAR) domain, independent T.87 decoder agrees on every generated stream, lossless = near(0) byte identity, H.3 vector.",
+     level_note=COMMON_NOTE)
+prop("C15", design_ref="DESIGN.md 5 (C15)",
+     level_text="JPEG DCT vs independent JPEG: theorem content is geometry (block grid for all sampling factors), Huffman table validity and entropy-layer facts; the agreement itself compares two implementations (image/jpeg and a reference encoder in the harness) and is labelled as such.",
+     level_note=COMMON_NOTE)
+prop("C16", design_ref="DESIGN.md 5 (C16)",
+     level_text="Well-formed codestreams: strict walkers written from the standards (extracted and run on every emitted stream of every encoder), segment-length / stuffing / no-marker theorems for the writers incl. the MQ coder invariant.",
+     level_note=COMMON_NOTE)
+prop("C17", design_ref="DESIGN.md 5 (C17)",
+     level_text="Encoder guards: accepts(a) -> representable(a) per encoder over the argument tuples, model guards compared with Go on enumerated tuples around every limit; never-panic and geometry-of-returned-stream are oracle checks.",
+     level_note=COMMON_NOTE)
+prop("C18", design_ref="DESIGN.md 5 (C18)",
+     level_text="Concurrency: non-interference theorem for any number of threads and any schedule when no step writes shared state, with the premise discharged over regenerated write-site facts (no package-level writes outside init, no Codec receiver writes, parameter objects written only under an already-valid guard); race-detector stress is a schedule sample.",
+     level_note=COMMON_NOTE + " The Go scheduler/runtime is not modelled.")
+prop("C19", design_ref="DESIGN.md 5 (C19)",
+     level_text="JPEG 2000 tiled: tile partition/assembly and origin-parity band geometry proved for all sizes; 5/3 DWT inverse for every origin parity; end to end decided by the tiled round-trip oracle (1..12 tiles per axis, odd sizes, layers, global PCRD).",
+     level_note=COMMON_NOTE)
+prop("C20", design_ref="DESIGN.md 5 (C20)",
+     level_text="RCT inverse (all integers; int32 within +-2^28) and 5/3 DWT inverse (1-D all lengths and parities, 2-D, multilevel any origin) fully proved; MQ: table well-formedness, encoder invariants/no-marker, decoder bounds, round trip as listed (bounded or partial parts named); T1: LUT = Annex D, lockstep as listed.",
+     level_note=COMMON_NOTE + " int32 wrap written explicitly in the RCT model; DWT theorems over Z with a growth lemma.",
      trusted=["Go int32 arithmetic is modelled with explicit wrapS 32 in the RCT model; DWT/MQ models over Z with stated range hypotheses"],
      assumptions=["model = code shown only on the generated cases (byte/integer-exact comparison)"],
-     explanation="RCT: proved for all integers and for int32 within +-2^28.")
+     explanation="see theorems list")
